@@ -3,7 +3,7 @@ CHECK = {
     "technique": "stateless bounded-exhaustive enumeration of closed executions of every flenp_* entry point and of every lenp_* compatibility entry point "
                  "of include/ufw/length-prefix.h on the real code "
                  "(inputs x buffer states x chunk lists x destination capacities x source fragmentation scripts x sink answer scripts x "
-                 "request histories of _n slices off one buffer x argument aliasing x drivers that call the library themselves on lower endpoints) "
+                 "request histories of _n slices off one buffer x histories of accepted and refused calls on one prefix object x aliased memory x drivers that call the library themselves on lower endpoints) "
                  "against an independently written prefix codec; counts beyond 2^31 are "
                  "covered by structured boundary families through buffers/destinations that are never touched (fake extents over 16 real "
                  "octets, an untouched 8 GiB anonymous mapping) and drivers that identify octets by address (a decoder that asks its source to "
@@ -33,14 +33,17 @@ CHECK = {
             "octet source; "
             "enc-sum: chunk lists of 2..4 equal fake-extent chunks whose unread octets add up to 2^31-1, 2^31, 2^31+5, 0x90000000, 2^32-1, 2^32, 2^32+5, 0x180000000 (no single chunk near a boundary), "
             "chunks_use / chunks_to_sink; "
-            "enc-alias / dec-alias (argument aliasing, see assumptions): memory_to_sink / buffer_to_sink / buffer_to_sink_n into a chunk or octet sink that appends to the very ByteBuffer the payload is "
-            "taken from (0/1 consumed octets in front, unread <= 4/6 and 130, 300, every n, room exact or +1; buffer_to_sink_n also as every composition of the unread octets into a history of slices), "
-            "and the three decoders from a chunk or octet source that reads the unread content of the very ByteBuffer the payload is appended to (1..2 frames of <= 3/5 and 130 octets, room exact, +1, and one short); "
-            "reent-enc / reent-dec (stacked endpoints): the four sink encoders (lengths 1,3,300 / 1,2,3,130,300,65535; chunk sink, chunk sink taking one octet per call, octet sink) and the three decoders "
+            "enc-alias / dec-alias (aliased memory, see assumptions): memory_to_sink / buffer_to_sink / buffer_to_sink_n into a chunk or octet sink that appends to the memory of the ByteBuffer the payload is "
+            "taken from, through a descriptor of its own (0/1 consumed octets in front, unread <= 4/6 and 130, 300, every n, room exact or +1; buffer_to_sink_n also as every composition of the unread octets into a history of slices), "
+            "and the three decoders from a chunk or octet source that reads (through a descriptor of its own) the unread content of the memory the payload is appended to (1..2 frames of <= 3/5 and 130 octets, room exact, +1, and one short); "
+            "reent-enc / reent-dec (stacked endpoints; gated by a start-up probe, see assumptions: run only when the library proves re-entrant, otherwise numbered and classed reent-not-run with a cap): the four sink encoders (lengths 1,3,300 / 1,2,3,130,300,65535; chunk sink, chunk sink taking one octet per call, octet sink) and the three decoders "
             "(source of the same three styles; decode_source_to_sink also with the sink stacked) whose driver, in its call 0, 1 (thorough: ..3) or in each of its first 8 calls, before or after doing its own job, "
             "calls one of the 11 entry points with one of the 6 kinds on lower endpoints of its own - with a payload/frame of its own (2, 200 / 1, 2, 200, 300 octets) or, for sink drivers and the four sink "
             "encoders, with exactly the pointer and count it was handed (tunnelling) - and sources that obtain what they hand out by decoding (3 decoders x 6 kinds) a lower stream that carries the outer stream "
             "in frames of 1, 2 or 5 octets; both the outer and every lower call are judged by the oracle of their entry point. "
+            "obj-hist (histories on one prefix object): every sequence of <= 3 (thorough 4) calls on ONE LengthPrefixBuffer over the alphabet {memory_encode, buffer_encode, buffer_encode_n} x {1, 5 octets: accepted; "
+            "maximum+1, 2^64-1 octets through fake extents: refused}, and of <= 4 (5) chunks_use calls on one LengthPrefixChunks (list totals 3, 6, maximum+1, 2^64-1): every accepted call is held to the usual oracle "
+            "of its entry point, after every refused call the object is inspected (see assumptions). "
             "The quantifier text names no random part; nothing is sampled.  Non-trivial = buffer case where "
             "offset>0 or free space != unread or n<rest, chunk list with >1 chunk or an inactive chunk, stream with >=1 cut or "
             ">=2 frames, sink-script case in which a deviating answer was really delivered, stacked-endpoint case in which at least one lower call was really made from inside a driver, "
@@ -51,12 +54,19 @@ CHECK = {
         "sinks answer within the driver contract of endpoints/core.c (a count <= asked, 0, -EINTR, -EAGAIN; hard sink errors are not "
         "scripted: the statement does not say what an encoder does with them); sources fragment by positive short reads only "
         "(0 / EINTR / EAGAIN answers of a source belong to C17; the varint prefix is read octet-wise through the at-most API)",
-        "re-entrancy: the statement quantifies over sinks and sources without restriction; a driver that frames / de-frames on a lower endpoint through the same library is such a sink / source "
-        "(layered framing), so both the outer call and the call made from inside the driver are owed their frame / payload; the lower endpoints are objects of the driver, never the outer call's own arguments",
+        "re-entrancy: the statement has no sentence on it (audit 5: a `static` prefix scratch object in the sink encoders frames everything correctly for every sink that does not call back into the library). "
+        "The stacked-endpoint families (a driver that frames / de-frames on a lower endpoint of its own through the same library) are therefore gated like dec-huge: a start-up probe, run in every process "
+        "outside any case, executes every outer entry point x 7 kinds x 3 driver styles (lengths 3, 300) with every lower entry point x 6 kinds made before / after the driver's job in each of its first "
+        "8 calls (own payload of 2 octets, tunnelled, and the tunnelling sources), and where such an execution is wrong repeats it with the lower calls switched off: if an execution is wrong only when "
+        "a lower call is made, the library is not re-entrant, the reent-* cases are numbered but not run (trivial class reent-not-run, cap, exhaustive=False, exit 0) - never a violation; the reent-* "
+        "classes are not required; seeded changes C13k and C13n (static scratch) are no longer reported. Where the library is re-entrant by the probe, both the outer call and the call made from "
+        "inside the driver are held to the oracle of their entry point; the lower endpoints are objects of the driver, never the outer call's own arguments",
         "aliasing between the arguments of one call, decided as follows. Admitted (the designated octets are fixed by the arguments when the call is made and nobody writes them during the call): "
-        "a sink that appends behind the fill mark of the ByteBuffer the payload is taken from (memory_to_sink, buffer_to_sink, buffer_to_sink_n: the frame is the buffer's content behind the old fill mark, "
-        "the sink's bookkeeping in the descriptor survives, _n advances offset by n), and a source that reads the unread content of the ByteBuffer the payload is appended to (all three decoders; "
-        "decode_source_to_sink with source and sink on one ByteBuffer); these drivers are harness code using the descriptor fields directly. Not admitted, not generated: a sink appending to a chunk of "
+        "a sink that appends behind the fill mark of the memory the payload is taken from (memory_to_sink, buffer_to_sink, buffer_to_sink_n: the frame is the memory behind the old fill mark, "
+        "_n advances the argument's offset by n and leaves it otherwise as handed in), and a source that reads the unread content of the memory the payload is appended to (all three decoders; "
+        "decode_source_to_sink with source and sink on one memory block). What is aliased is the MEMORY only: every driver has a ByteBuffer descriptor of its own over it, the descriptor passed as the "
+        "call's argument is a separate object that nobody but the library touches during the call (a library working on a local copy of its argument descriptor and writing it back is legitimate: audit 5), "
+        "and the harness carries fill mark / read position from one descriptor to the other between calls. Not admitted, not generated: a sink appending to a chunk of "
         "the chunk list being framed (the total is a moving target; no implementation can snapshot it without extra storage), a prefix object whose own payload view is passed as the buffer argument, "
         "a decode destination overlapping the unread stream",
         "_n entry points: the statement has no sentence for n > unread content; such n are only generated where n is also beyond "
@@ -78,6 +88,11 @@ CHECK = {
         "prefix-object encoders return a status: demanded >= 0 plus a prefix view (anywhere inside the object's prefix storage) "
         "holding the encoding and a payload view / chunk list designating exactly the octets (sequence of non-empty address ranges; "
         "the representation of the list is not compared)",
+        "'refused before anything is emitted' for the entry points that emit into a prefix object: what they emit is what they put into the object (prefix octets, designation of the payload), and the object is kept "
+        "by its owner for sending / re-sending; after a refused call two states are admitted: (A) the frame of the last accepted call exactly as it was (prefix view holds the same octets, payload view designates the same "
+        "octets) or (B) no frame at all (prefix view or payload view empty - a refusal that nulls the object first is legitimate, cf. C18); reported (clause *-refuses-overmax): a non-empty prefix view together with "
+        "a non-empty payload view that are not those of (A), e.g. the previous prefix in front of the refused message; a non-empty prefix view lying outside the object's storage is not dereferenced and not judged; "
+        "chunks_use: the payload list is the caller's (set before the call), only the prefix view is judged (as it was, or empty); histories on a sink are not a subject (a sink has no state the statement speaks of)",
         "decoders: prefix values beyond the kind's maximum (varint: > SSIZE_MAX) are outside the statement and not generated; "
         "destinations are always real exact-size blocks (no claimed capacities), so a write inside the destination is never an alarm",
         "decode_source_to_sink: only a non-negative return is demanded on success (the sink content decides); "
@@ -96,7 +111,9 @@ CHECK = {
                                      "encbeh-zero-return", "encbeh-interruption", "encbeh-partial", "encbeh-mixed",
                                      "encmax-partial-sink", "stream-getbuffer",
                                      "encsum-accept", "encsum-refuse", "alias-enc", "alias-enc-slices", "alias-dec", "alias-dec-enomem",
-                                     "reent-enc", "reent-enc-tunnel", "reent-dec", "reent-dec-tunnel", "reent-dec-sink"]},
+                                     "objhist-refused-after-accept", "objhist-refused-first", "objhist-chunks-refusal", "objhist-no-refusal"]},
+        # reent-enc / reent-enc-tunnel / reent-dec / reent-dec-tunnel / reent-dec-sink are not required: on a library that is not
+        # re-entrant (start-up probe) the whole family ends as reent-not-run (with a cap: exhaustive=False), not a vacuity failure
         # dechuge-accept / dechuge-sink-accept are not required: a decoder that does not deliver in place makes the whole family end as
         # dechuge-not-run / dechuge-not-judged (with a cap: exhaustive=False), which is not a vacuity failure
     }],
